@@ -1,11 +1,16 @@
 #!/bin/bash
-# usage: run_seeded.sh <seed dir name> <PROP> [tier] — apply the seeded patch to /repo, run the check, undo.
+# usage: run_seeded.sh <seed dir name> <PROP> [tier]
+# Applies the seeded patch to a scratch COPY of /repo (never to /repo itself), runs the check against the copy
+# (VERIF_REPO) with its output redirected (VERIF_OUT), and removes the copy. Safe to run concurrently.
 S=/verif/seeded/$1; P=$2; T=${3:-quick}
-cd /repo && git diff --quiet || { echo "/repo not clean"; exit 3; }
-git -C /repo apply $S/patch.diff || exit 3
-cp /verif/evidence/$P.json /tmp/seed/ev-$P.bak 2>/dev/null
-cd /verif && timeout ${SEED_TIMEOUT:-1800} ./check $P --tier $T > /tmp/seed/run-$1-$P.log 2>&1; RC=$?
-git -C /repo checkout -- .
-[ -f /tmp/seed/ev-$P.bak ] && cp /tmp/seed/ev-$P.bak /verif/evidence/$P.json
-rm -rf /verif/replays/$P
-echo "seed=$1 check=$P tier=$T rc=$RC"; grep -E "^VIOLATION|^KNOWN|^OK|^INCONCLUSIVE" /tmp/seed/run-$1-$P.log | head -5
+W=$(mktemp -d /tmp/seedrun.XXXXXX)
+mkdir -p $W/repo && (cd /repo && git archive HEAD | tar -x -C $W/repo) || exit 3
+(cd $W/repo && git init -q . && git apply $S/patch.diff) || { echo "seed=$1 check=$P: patch does not apply"; rm -rf $W; exit 3; }
+cd /verif && VERIF_REPO=$W/repo VERIF_OUT=$W/out timeout ${SEED_TIMEOUT:-2400} ./check $P --tier $T > $W/log 2>&1; RC=$?
+mkdir -p /tmp/seed/logs; cp $W/log /tmp/seed/logs/run-$1-$P.log
+echo "seed=$1 check=$P tier=$T rc=$RC $(grep -cE '^VIOLATION' $W/log) violation(s) $(grep -E '^  role=' $W/log | head -1 | cut -c1-160)"
+grep -E "^INCONCLUSIVE" $W/log | head -2 | cut -c1-200
+# drop this tree's artifacts again (work dirs are keyed by tree content)
+H=$(cd /verif && VERIF_REPO=$W/repo python3-vt -c "import sys; sys.path.insert(0,'lib'); import common; print(common.tree_hash())")
+rm -rf /verif/.work/$H $W
+exit 0
